@@ -1,7 +1,7 @@
 CONSTANTS N = 8
-CIdx = {1, 3, 4, 6, 8}
-NaIdx = {1, 2, 4, 6, 7}
-MgIdx = {1, 2, 3, 4, 5}
+CIdx = {1, 4, 8}
+NaIdx = {1, 4, 7}
+MgIdx = {1, 3, 5}
 SPECIFICATION Spec
 INVARIANTS Emit Monotone
 CHECK_DEADLOCK FALSE
